@@ -46,7 +46,7 @@ POSITIONS = ["top", "group", "repeat", "repeat/repeat", "group/repeat/group", "r
 def plan(tier, seed):
     return {"shards": 16, "timeout": 900 if tier == "quick" else 3600, "n_random": 900 if tier == "quick" else 14000,
             "stride": 1,
-            "floors": {"defaults_judged": 1500, "triggers_judged": 200, "dyn_hook_evals": 1000, "distinct": 300}}
+            "floors": {"suite_conversions_judged": 500, "defaults_judged": 1500, "triggers_judged": 200, "dyn_hook_evals": 1000, "distinct": 300}}
 
 
 def classify(text, qtype):
